@@ -94,6 +94,22 @@ def main():
         fac = rng.choice(["StlDiscreteTimeSpecification", "StlDiscreteTimeOnlineSpecification"])
         evs = [ev_parse(), ev_pastify()] + [ev_update(t, sample_at(w, t)) for t in range(N)]
         cases.append(case([dt_obj(phi, S, vs, factory=fac)], evs))
+    # the LTL front end (LtlAst + LtlPastifier, delays are chains of prev): untimed formulas with next
+    LTL_OPS = ["next", "snext", "next", "not", "and", "or", "implies", "prev", "once", "hist", "since", "rise"]
+    for i in range(n // 4):
+        S = rng.choice([1, 2])
+        g = Gen(rng, vars_=rng.choice([("x",), ("x", "y")]), S=S, ops=LTL_OPS, arith=("add", "sub", "abs", "neg"))
+        for _ in range(50):
+            phi = g.formula(rng.choice([1, 2, 2, 3]))
+            if ("next" in ops_of(phi) or "snext" in ops_of(phi)) and (rng.random() < 0.2 or not past_over_future(phi)):
+                break
+        else:
+            continue
+        vs = vars_of(phi) or ["x"]
+        N = horizon(phi) + rng.choice([1, 2, 3, 5])
+        w = gen_trace(rng, vs, N, S)
+        evs = [ev_parse(), ev_pastify()] + [ev_update(t, sample_at(w, t)) for t in range(N)]
+        cases.append(case([dt_obj(phi, S, vs, factory="ltl_online", ltl=True)], evs))
     traces = runner.run_cases(cases)
     vs_, gen, dist = core.validate("C03", traces)
     rep.add_traces(traces, vs_, gen, dist, nontrivial_key=lambda c: c["objs"][0]["text"] + str([e.get("s") for e in c["events"]]))
